@@ -605,7 +605,7 @@ def _loop_body(il: list) -> tuple[int, int] | None:
     return tests[0] + 2, tests[-1]
 
 
-def counted_bodies(ctx: Ctx, rows: dict, cases: list) -> None:
+def counted_bodies(ctx: Ctx, rows: dict, cases: list, prefix: str = "C04.10") -> None:
     """Inside the loop of a counted instruction (README: `Loop I times: (m++) ...`):
        L1 every data access goes through an address that changes in the loop body (otherwise the same cell is processed I times)
        L2 an address temporary is stepped by exactly one byte; the only wrap masks are 0xFF (internal, rebased on 0x100000) and 0xFFFFF
@@ -630,7 +630,7 @@ def counted_bodies(ctx: Ctx, rows: dict, cases: list) -> None:
             addr = t.args[1]
             regs = {repr(x.args[1]) for x in ilfacts.walk(addr) if x.ctor == "reg"} if isinstance(addr, Term) else set()
             if not (regs & written):
-                groups[("C04.10/loop-invariant-address", c.opcode, f"{kind} at a fixed address inside the I-loop")].append(c)
+                groups[(prefix + "/loop-invariant-address", c.opcode, f"{kind} at a fixed address inside the I-loop")].append(c)
         # L2
         for st in body:
             if not (isinstance(st, Term) and st.ctor == "set_reg" and "TEMP" in repr(st.args[1]) and st.args[0] == 3):
@@ -644,7 +644,7 @@ def counted_bodies(ctx: Ctx, rows: dict, cases: list) -> None:
             masks = [m for m in consts if m not in (1, 0x100000)]
             ok = 1 in consts and all(m in (0xFF, 0xFFFFF) for m in masks) and ((0xFF in masks) == (0x100000 in consts))
             if not ok:
-                groups[("C04.10/loop-step", c.opcode, f"address temporary stepped with constants {[hex(m) for m in consts]} (expected +-1 with wrap 0xFF@0x100000 or 0xFFFFF)")].append(c)
+                groups[(prefix + "/loop-step", c.opcode, f"address temporary stepped with constants {[hex(m) for m in consts]} (expected +-1 with wrap 0xFF@0x100000 or 0xFFFFF)")].append(c)
         # L3
         toks = c.tokens
         for i, (k, t) in enumerate(toks):
@@ -659,9 +659,9 @@ def counted_bodies(ctx: Ctx, rows: dict, cases: list) -> None:
                 n += 1
                 if f"'{reg}'" not in written:
                     anywhere = any(t2.ctor == "set_reg" and repr(t2.args[1]) == f"'{reg}'" for st in il for t2 in ilfacts.walk(st))
-                    groups[("C04.10/loop-autoinc", c.opcode, f"[{reg}{t}] is not updated inside the loop body ({'only outside it' if anywhere else 'never written'}): {reg} ends at most one step away instead of I steps")].append(c)
+                    groups[(prefix + "/loop-autoinc", c.opcode, f"[{reg}{t}] is not updated inside the loop body ({'only outside it' if anywhere else 'never written'}): {reg} ends at most one step away instead of I steps")].append(c)
     for (rule, op, what), cs in sorted(groups.items(), key=lambda kv: (kv[0][0], kv[0][1])):
         r = rows[op]
         ctx.violation(rule, key_of(isa.INSTR_PY, f"opcode 0x{op:02X} {r.cls}", what.split(" (")[0]),
                       f"opcode 0x{op:02X} ({r.name}): {what} ({len(cs)} cases); text `{''.join(t for _k, t in cs[0].tokens)}`", f"{isa.OPTABLE}:{r.ln}", il=cs[0].il[:8])
-    ctx.instance("C04.10/counted-bodies", "data accesses / address steps / auto-modify registers inside I-counted loops", n, 120)
+    ctx.instance(prefix + "/counted-bodies", "data accesses / address steps / auto-modify registers inside I-counted loops", n, 120)
